@@ -177,6 +177,9 @@ def handshake_ids(out):
             try:
                 name = 'io' if not isinstance(cookie, dict) else cookie['name']
                 first = peer.sid_of(peer.open_polling(w))
+                if first is None:
+                    out.append(_viol('bad_shape', impl, 'handshake', 0, 0, 'server(cookie=%r): the first handshake was not answered with an OPEN packet' % (cookie,)))
+                    continue
                 peer.post(w, first, '1')
                 w.http('GET', peer.BASEQ + '&sid=' + first)      # lets the server reap the closed entry
                 w.run()
